@@ -25,7 +25,7 @@ type LargeCase struct {
 	Start int64  `json:"start_bit"`
 	Stop  int64  `json:"stop_bit"`
 	Expr  string `json:"expr"`
-	Mode  string `json:"mode"` // raw-bytes | raw-bits | md5 | hex
+	Mode  string `json:"mode"` // raw-bytes | raw-bits | raw-either | md5 | hex | render:<bits_format>
 }
 
 // largeData: position dependent content (every 4 byte window is distinct enough
@@ -78,6 +78,14 @@ var largeExprs = []struct {
 	{"raw-either", "decode value | ._bytes", func(a, b int64) string { return dvProg(a, b) + ` | ._bytes` }},
 	{"md5", "decode value | tovalue md5", func(a, b int64) string { return dvProg(a, b) + ` | tovalue({bits_format: "md5"})` }},
 	{"hex", "decode value | tovalue hex", func(a, b int64) string { return dvProg(a, b) + ` | tovalue({bits_format: "hex"})` }},
+	{"render:byte_array", "decode value | tovalue byte_array", func(a, b int64) string { return dvProg(a, b) + ` | tovalue({bits_format: "byte_array"})` }},
+	{"render:base64", "decode value | tovalue base64", func(a, b int64) string { return dvProg(a, b) + ` | tovalue({bits_format: "base64"})` }},
+	{"render:truncate", "decode value | tovalue truncate | tobytes", func(a, b int64) string {
+		return dvProg(a, b) + ` | tovalue({bits_format: "truncate"}) | tobytes`
+	}},
+	{"render:snippet", "decode value | tovalue snippet", func(a, b int64) string { return dvProg(a, b) + ` | tovalue({bits_format: "snippet"})` }},
+	{"raw-either", "decode value | tovalue string | tobytes", func(a, b int64) string { return dvProg(a, b) + ` | tovalue({bits_format: "string"}) | tobytes` }},
+	{"raw-either", "decode value | tovalue (default bits_format) | tobytes", func(a, b int64) string { return dvProg(a, b) + ` | tovalue | tobytes` }},
 	{"raw-bytes", "decode value | tobytes | tobytes[0:]", func(a, b int64) string { return dvProg(a, b) + ` | tobytes | tobytes[0:]` }},
 	{"raw-bytes", "binary | tobytes", func(a, b int64) string { return binExpr(a, b) + ` | tobytes` }},
 	{"raw-bits", "binary | decode bits | tobits", func(a, b int64) string { return binExpr(a, b) + ` | decode("bits") | tobits` }},
@@ -126,8 +134,11 @@ func runLarge(r *core.Run) bool {
 func judgeLarge(c LargeCase, data []byte, top BitBuf) string {
 	n := c.Stop - c.Start
 	args := []string{"-d", "bytes", c.Expr, "in.bin"}
-	if c.Mode == "md5" || c.Mode == "hex" {
+	if c.Mode == "md5" || c.Mode == "hex" || c.Mode == "render:base64" || c.Mode == "render:snippet" {
 		args = append([]string{"-r"}, args...)
+	}
+	if c.Mode == "render:byte_array" {
+		args = append([]string{"-c"}, args...)
 	}
 	res := runFQ(args, data)
 	if res.Panic != nil || res.Exit != 0 {
@@ -147,6 +158,25 @@ func judgeLarge(c LargeCase, data []byte, top BitBuf) string {
 		if bytes.Equal(res.Stdout, top.Extract(c.Start, n, lead).B) {
 			return ""
 		}
+	case "render:byte_array", "render:base64", "render:snippet", "render:truncate":
+		// the renderings of the small trees (judge.go), here for values larger than the
+		// copy buffers: decoded back by checkRender
+		f := strings.TrimPrefix(c.Mode, "render:")
+		var v any = strings.TrimSuffix(string(res.Stdout), "\n")
+		switch f {
+		case "byte_array":
+			var a []any
+			if err := json.Unmarshal(res.Stdout, &a); err != nil {
+				return "output is not a JSON array: " + err.Error()
+			}
+			v = a
+		case "truncate":
+			v = string(res.Stdout)
+		}
+		if why := checkRender(f, v, top.Extract(c.Start, n, 0).B, top.Extract(c.Start, n, lead).B, n); why != "" {
+			return fmt.Sprintf("%s rendering of bits %d..%d of the file: %s", f, c.Start, c.Stop, why)
+		}
+		return ""
 	case "md5", "hex":
 		// renderings of a range that is not a whole number of bytes may pad on either side
 		got := strings.TrimSpace(string(res.Stdout))
